@@ -157,3 +157,12 @@ def _freeze(v):
     if is_missing(v):
         return ("nan",)
     return (type(v).__name__, v)
+
+
+def group_counts(order, raw_values, quantitative: bool, str_nan: str = "__NAN__"):
+    """Number of rows per group position (None = rows belonging to no group)."""
+    counts = {}
+    for v in raw_values:
+        pos, _ = ref_group(order, v, quantitative, str_nan)
+        counts[pos] = counts.get(pos, 0) + 1
+    return counts
